@@ -117,14 +117,14 @@ type jcase struct {
 
 // exhaustive small images: quick = a subset, thorough = all images <= 3x3 at P=2 and <= 2x2 at
 // P=4 (one component), plus all 1x1 / 2x1 / 1x2 three-component images at P=2.
-func exhaustiveCases(c *Ctx, nears func(P int) []int) []jcase {
+func exhaustiveCases(c *Ctx, nears func(P, samples int) []int) []jcase {
 	var out []jcase
 	add := func(w, h, comps, P, strideQuick int) {
 		stride := strideQuick
 		if c.Thor {
 			stride = 1
 		}
-		for _, nr := range nears(P) {
+		for _, nr := range nears(P, w*h*comps) {
 			nr := nr
 			exhaustive(w, h, comps, P, stride, func(im *image) { out = append(out, jcase{im, nr}) })
 		}
@@ -197,7 +197,7 @@ func runC03(c *Ctx) {
 		cases = append(cases, jcase{im, 0})
 	}
 	cases = append(cases, fixedLossless()...)
-	cases = append(cases, exhaustiveCases(c, func(int) []int { return []int{0} })...)
+	cases = append(cases, exhaustiveCases(c, func(int, int) []int { return []int{0} })...)
 	cases = append(cases, bigCases(c, rng, func(int) int { return 0 })...)
 	ParallelFor(len(cases), c.Work, func(i int) {
 		im := cases[i].im
@@ -345,12 +345,15 @@ func runC07(c *Ctx) {
 		"and P=4 (NEAR 0..7); non-trivial = more than one sample"
 	rng := c.Rng.Fork()
 	cases := nearCases(c, rng, 300, 3000)
-	cases = append(cases, exhaustiveCases(c, func(P int) []int {
+	cases = append(cases, exhaustiveCases(c, func(P, samples int) []int {
 		if P == 2 {
 			return []int{0, 1}
 		}
-		if c.Thor {
+		if c.Thor && samples < 4 {
 			return []int{0, 1, 2, 3, 4, 5, 6, 7}
+		}
+		if c.Thor {
+			return []int{1, 2, 3, 7} // all 65536 2x2 images at P=4 for the emphasised NEAR values
 		}
 		return []int{1, 3, 7}
 	})...)
@@ -468,14 +471,14 @@ func runC14(c *Ctx) {
 			}
 		}
 	}
-	cases := nearCases(c, rng, 240, 2400)
+	cases := nearCases(c, rng, 150, 2400)
 	// the same number of NEAR = 0 cases (lossless encoder + near(0) identity + cross decoding)
-	ims, _ := randomImages(rng, c.N(240, 2400), 64, func(int) int { return 0 })
+	ims, _ := randomImages(rng, c.N(150, 2400), 64, func(int) int { return 0 })
 	for _, im := range ims {
 		cases = append(cases, jcase{im, 0})
 	}
 	cases = append(cases, fixedLossless()...)
-	cases = append(cases, exhaustiveCases(c, func(P int) []int {
+	cases = append(cases, exhaustiveCases(c, func(P, samples int) []int {
 		if P == 2 {
 			return []int{0, 1}
 		}
